@@ -72,6 +72,10 @@ def check(ctx: Ctx) -> None:
     from ..dsf import auto_memo_check
     ctx.rule('C19.d', 'no auto-discovered lazily filled cache of the classes in the anchored modules can be stale at the exit of a public method (dependencies = what the fill expression reads, incl. mutating calls on held sub-objects)', floor=10)
     auto_memo_check(ctx, 'C19.d', [SH, CE])
+    from ..commit import check_family
+    check_family(ctx, 'C19.e', ['Shape', 'Cluster'], floor=5)
+    from ..idioms import check_falsy_zero
+    check_falsy_zero(ctx, 'C19.f', [SH, CE], floor=3)
     _check_add_user(ctx)
 
 
